@@ -464,18 +464,42 @@ def case_constructor(ctx, H, W, kind, angle=0.0, angle2=0.0, conc_scales=None, l
     if level == "util":
         from autoarray.mask import mask_2d_util as mu
         real = getattr(mu.elliptical_radius_from, "__wrapped_kernel__", mu.elliptical_radius_from)
-        try:
-            if kind == "elliptical_annular":
+        grp = lambda k: "_".join(k.split("_")[:3])
+        if kind == "elliptical_annular":
+            # compositional mode first (elliptical_radius_from = uninterpreted function); every obligation is pre-decided
+            # with a private query so that no candidate containing uninterpreted symbols is ever recorded.  If anything
+            # is not discharged there (e.g. the kernel no longer calls elliptical_radius_from), fall back to the direct
+            # encoding of this case, where counterexamples are over real inputs and are replayed.
+            all_ok = False
+            try:
                 UF_MODE[0] = True
                 merge.STUBS[real] = lambda y, x, angle, axis_ratio: _uf_radius(y, x, angle, axis_ratio)
-            with merge.merging() as ev:
-                hx.run_body(ctx, body_constructor, inputs, kw, validate_every=0 if UF_MODE[0] else 1, groups=lambda k: "_".join(k.split("_")[:3]))
-                if UF_MODE[0]:
-                    ctx.twin()
-                ctx.check("no exception event reachable in the kernel", [z3.Not(g) for (g, n, m) in ev])
-        finally:
-            UF_MODE[0] = False
-            merge.STUBS.pop(real, None)
+                with merge.merging() as ev:
+                    ctx.set_inputs(**inputs)
+                    A_, E_ = body_constructor(inputs, **kw)
+                    all_ok = not ev
+                    for k_ in E_:
+                        terms = [t_ for t_ in hx.eq_terms(A_.get(k_), E_[k_]) if not (t_ is True)]
+                        if any(t_ is False for t_ in terms):
+                            all_ok = False
+                            break
+                        if terms:
+                            r_, _m = ctx._check_sliced(z3.Not(z3.And(*terms)), group=grp(k_))
+                            if r_ != "unsat":
+                                all_ok = False
+                                break
+                    if all_ok:
+                        hx.check_all(ctx, A_, E_, groups=grp)
+                        ctx.twin()
+            finally:
+                UF_MODE[0] = False
+                merge.STUBS.pop(real, None)
+            if all_ok:
+                return
+            ctx.timeout_ms = 8000
+        with merge.merging() as ev:
+            hx.run_body(ctx, body_constructor, inputs, kw, validate_every=1, groups=grp)
+            ctx.check("no exception event reachable in the kernel", [z3.Not(g) for (g, n, m) in ev])
     else:
         hx.run_body(ctx, body_constructor, inputs, kw, validate_every=4, groups=lambda k: "_".join(k.split("_")[:3]))
 
